@@ -103,6 +103,8 @@ struct Sys {
     /// Relayers of stored announcements per store row (mirrors what relay bookkeeping can know).
     row_relayers: BTreeMap<RowKey, BTreeSet<NodeId>>,
     gossips: u64,
+    /// (store row, timestamp, signature verifies) of every announcement ever received.
+    meta: BTreeMap<Vec<u8>, (RowKey, u64, bool)>,
 }
 
 impl Sys {
@@ -142,6 +144,7 @@ impl Sys {
             pending: BTreeSet::new(),
             row_relayers: BTreeMap::new(),
             gossips: 0,
+            meta: BTreeMap::new(),
         }
     }
 
@@ -370,6 +373,7 @@ impl System for Sys {
                     self.rejected_why.insert(id.clone(), why.to_string());
                 }
                 self.delivered_by.entry(id.clone()).or_default().insert(from.id);
+                self.meta.insert(id.clone(), (key.clone(), t, verifies));
 
                 let drops = svc::drops();
                 self.svc.received_message(from.id, Message::Announcement(ann.clone()));
@@ -428,16 +432,10 @@ impl System for Sys {
             if store_ids.contains(id) {
                 return true;
             }
-            // Decode enough of the identity to decide: node (32 bytes) + message + signature (64 bytes).
-            let node = NodeId::try_from(&id[..32]).expect("node id");
-            let sig = radicle::crypto::Signature::try_from(&id[id.len() - 64..]).expect("signature");
-            let msg = &id[32..id.len() - 64];
-            if node.verify(msg, &sig).is_err() {
-                return false;
+            match self.meta.get(id) {
+                Some((key, ts, verifies)) => *verifies && self.stored_ts(&store, key).map(|l| *ts > l).unwrap_or(true),
+                None => true,
             }
-            let Ok(message) = wire::deserialize::<AnnouncementMessage>(msg) else { return true };
-            let a = Announcement { node, signature: sig, message };
-            self.stored_ts(&store, &row_key(&a)).map(|l| *a.timestamp() > l).unwrap_or(true)
         };
         let delivered: Vec<(String, Vec<String>)> =
             self.delivered_by.iter().filter(|(k, _)| relevant(k)).map(|(k, v)| (short(k), v.iter().map(|n| self.name(n)).collect())).collect();
